@@ -53,8 +53,8 @@ def _transfer(fn, b, fs, tracked, root, enums=frozenset(), resolved=None, edge_f
                 inner = None
                 if len(rv["fields"]) == 1:
                     p = _op_place(rv["fields"][0])
-                    if p is not None and not p.get("p") and _outer(fs.get(p["l"])):
-                        inner = fs[p["l"]]
+                    if p is not None and not p.get("p") and isinstance(fs.get(p["l"]), tuple) and fs[p["l"]][0] != "discr":
+                        inner = fs[p["l"]]      # a known variant, or a known bool (`Ok(false)`)
                         if "mv" in rv["fields"][0]:
                             fs.pop(p["l"], None)
                 new = (rv.get("variant"), inner)
